@@ -260,6 +260,7 @@ func (c *Collection) Pull(ctx context.Context, opts ...ReadOption) <-chan *Colle
 				}
 			}
 		}
+		verifAt("fwd.seeded", send)
 
 		for event := range emit {
 			verifAt("fwd.got", send)
